@@ -76,7 +76,9 @@ def interpret(effs, env, handler, limit=200000):
                 if lo is None or hi is None or not st:
                     raise NotEvaluable("loop at line %s: range [%s, %s)" % (x.get("l"), sym.show(x["lo"]), sym.show(x["hi"])))
                 i = lo
-                while cmp_(x["cmp"], i, hi):
+                first_ = bool(x.get("at_least_once"))
+                while first_ or cmp_(x["cmp"], i, hi):
+                    first_ = False
                     e2 = dict(env)
                     e2[x["var"]] = i
                     try:
